@@ -60,6 +60,7 @@ func main() {
 	procs := flag.Int("procs", 0, "override: sim processes per build")
 	runs := flag.Int("runs", 0, "override: runs per process")
 	flag.BoolVar(&keep, "keep", false, "keep the scratch directory")
+	flag.StringVar(&buildsFlag, "builds", "race,plain", "which instrumented builds to simulate (diagnostic)")
 	flag.StringVar(&repoDir, "repo", "/repo", "tree under test")
 	flag.StringVar(&verifDir, "verif", "/verif", "verification directory")
 	flag.StringVar(&evidence, "evidence", "/verif/evidence/C13.json", "evidence file")
